@@ -88,8 +88,30 @@ def run(ctx):
     fam_iv = []
     for c in rnd.sample(fam_ii, min(len(fam_ii), 3000 if q else 40000)) + rnd.sample(fam_iii, 1000 if q else 20000):
         fam_iv.append(dict(c, mode=rnd.choice(['text', 'ctls-obj'])))
+    memo_binding(ctx, [dict(c) for c in rnd.sample(fam_ii + fam_iii, 1500 if q else 20000)])
     mcfam.run_families(ctx, [('operand_complete', fam_i), ('scope', fam_ii), ('random', fam_iii),
                              ('text_or_cast', fam_iv)])
+
+
+def memo_binding(ctx, cases):
+    """Layer-B binding (diagnostic): every entry of the real labelling table is an exact satisfaction set"""
+    from common import pmap
+    lists = pmap(mcfam.ctl_memo_events, cases)
+    if any(x is None for x in lists):
+        ctx.note('mechanism_binding', 'drift(_checkStateFormula no longer exists)')
+        return
+    events = []
+    for evs in lists:
+        for e in evs:
+            e['tid'] = len(events)
+            events.append(e)
+    bad = ctx.validate('TraceSem.tla', 'Trace.cfg', events)
+    bad = {t: v for t, v in bad.items() if not v['v'].startswith('ORACLE')}
+    ctx.note('memo_entries_validated', len(events))
+    ctx.note('mechanism_binding', 'ok' if not bad else 'drift(memo): %d of %d memo entries are not exact satisfaction sets' % (len(bad), len(events)))
+    if bad:
+        t = sorted(bad)[0]
+        ctx.log('mechanism drift (diagnostic only): memo entry %s = %s, exact set %s' % (events[t]['f'], events[t]['out']['ret'], bad[t].get('exp')))
 
 
 def replay(ctx, path):
